@@ -69,7 +69,21 @@ RULE = ("the 0D/1D/2D programmes of C08 (shared real runs), 1D processes with mo
 EXPLANATION = ("Lean theorems about the save-buffer invariants, the solidification fold and the object state machine + "
                "differential check against Snowing.run() and its accessors; the clauses re-evaluated on real outputs")
 PARALLEL = True
-LEVEL_TEXT = ('Lean 4 theorems about executable models of _run_0D, _run_1D and of the object fields across successive run() calls (exact real arithmetic), tied to /repo by a differential check (all four arrays of single runs; exception class, results and array lengths of object histories). Proved in full for 0D and 1D: complete result or exception (one run; fresh object: every accessor raises AssertionError after a failed run); t_fr = t_nuc + t_sol; t_sol = dt * (first solidification step with frozen fraction >= 0.9), the fraction being computed from the field saved for that step; all times within the process; equal lengths of the four histories (1D: i_save_end + 1 + (i_save - 1) rows), time = dt * step, shelfTemp = programme[step], rows in step order hence time non-decreasing; every in-loop buffer write in range, IndexError exactly when the extra post-nucleation row meets a full cooling buffer (explicit exception branch, reproduced on the real code). Refuted for a REUSED object: a run failing in the solidification stage after a completed one leaves new statistics with t_sol = None beside the old arrays (state-machine theorem + concrete model witness, replayed: K6); with the proposed repair of run() (fixes/K6.diff) the clause is proved for every object history. The single-run clauses are proved for the 2D model as well (S2D.run returns a complete Result or an exception class; its loops are identified with the generic folds); real 2D runs are compared with it (exception class, results row, array lengths, time axis, shelf, thinned fields). PARTIAL: the object state machine (reused object) is stated for 0D/1D run outputs; for 2D the no-partial-data clause rests on complete_or_raise_2D together with the repaired run() (earlier outputs cleared), checked on real 2D runs.')
+
+# --- regeneration tie (harness/gentie.py): the formulas of the hand model SnowModel/Snowing0D.lean, Snowing1D.lean are re-derived
+# from /repo's source on every run and proved equal to the generated text (lean/SnowProofs/Props/GenTie/)
+import gentie  # noqa: E402
+THEOREMS = THEOREMS + gentie.theorems("0D") + gentie.theorems("1D")
+extra_lean_targets = list(globals().get("extra_lean_targets", [])) + [gentie.module("0D"), gentie.module("1D")]
+TRUSTED = TRUSTED + ["harness/translate.py formula extraction (single assignments of the run loop -> Lean definitions; "
+                     "anything outside its tiny language is a TranslatorError)"]
+
+
+def regenerate():
+    gentie.regenerate("0D")
+    gentie.regenerate("1D")
+
+LEVEL_TEXT = ('Lean 4 theorems about executable models of _run_0D, _run_1D and of the object fields across successive run() calls (exact real arithmetic), tied to /repo by a differential check (all four arrays of single runs; exception class, results and array lengths of object histories). Proved in full for 0D and 1D: complete result or exception (one run; fresh object: every accessor raises AssertionError after a failed run); t_fr = t_nuc + t_sol; t_sol = dt * (first solidification step with frozen fraction >= 0.9), the fraction being computed from the field saved for that step; all times within the process; equal lengths of the four histories (1D: i_save_end + 1 + (i_save - 1) rows), time = dt * step, shelfTemp = programme[step], rows in step order hence time non-decreasing; every in-loop buffer write in range, IndexError exactly when the extra post-nucleation row meets a full cooling buffer (explicit exception branch, reproduced on the real code). Refuted for a REUSED object: a run failing in the solidification stage after a completed one leaves new statistics with t_sol = None beside the old arrays (state-machine theorem + concrete model witness, replayed: K6); with the proposed repair of run() (fixes/K6.diff) the clause is proved for every object history. The single-run clauses are proved for the 2D model as well (S2D.run returns a complete Result or an exception class; its loops are identified with the generic folds); real 2D runs are compared with it (exception class, results row, array lengths, time axis, shelf, thinned fields). PARTIAL: the object state machine (reused object) is stated for 0D/1D run outputs; for 2D the no-partial-data clause rests on complete_or_raise_2D together with the repaired run() (earlier outputs cleared), checked on real 2D runs. The per-step formulas of the 0D and 1D hand models are additionally tied by REGENERATION: harness/translate.py extracts them from /repo on every run and SnowProofs/Props/GenTie proves the generated text equal to the hand model (a changed formula breaks that proof).')
 
 
 ARRS = ("time", "shelfTemp", "temp", "iceMassFraction")
